@@ -424,13 +424,37 @@ int a = 1; int b = a + 1; const int c = b * 3; byte gb = 200; bool gf = false; s
 int z1[3]; bool zb[10]; byte zy[2]; string zs[2];
 empty touch(int a) { a += 100; b += a; }
 int shadow() { int a = 50; { int b = a + 1; a = b; } return a + b; }
+int peek() { a += 1; return a * 2 + b; }
+int peek2(int b) { return a + b + c; }
+int find(const int[] h, int v) { for (int i = 0; i < h.length; i += 1) { if (h[i] != v) { continue; } return i; } return -1; }
+int firstpos(const int[] h) { int i = -1; while (i < h.length - 1) { i += 1; if (h[i] <= 0) { continue; } return h[i]; } return 0; }
 empty @is_you(int n) {
     writeln(a); writeln(b); writeln(c); writeln(gb is int); writeln(gf); writeln(gs);
-    touch(n); writeln(a); writeln(b); writeln(shadow());
+    touch(n); writeln(a); writeln(b); writeln(shadow()); writeln(peek()); writeln(peek2(n)); writeln(peek()); writeln(a);
+    writeln(find([4, n, 7, 9], 7)); writeln(find([n, 2], n)); writeln(find([1, 2], 5)); int ze[0]; writeln(find(ze, 1)); writeln(firstpos([0, -1, n, 5])); writeln(firstpos(ze)); writeln(firstpos([0 - n, 0]));
     z1[0] = 2; z1[1] = n; z1[2] = 5; zb[8] = false; zb[9] = true; zy[1] = 'k'; zs[0] = gs; zs[1] = "x";
     writeln(z1[0] + z1[1] + z1[2]); writeln(zb[9]); writeln(zb[8]); write(zy[1]); writeln(zs[0]); writeln(zs[1].length);
     gb = 300 - 45; writeln(gb is int); gs = "new"; writeln(gs); gf = not gf; writeln(gf);
 }""", [['0'], ['9']]),
+    # the entry point is an ordinary you-function: it can be called again, recursively and from another you-function,
+    # and every activation returns to its caller
+    ("""
+int calls = 0;
+empty all_is_win(int score) { write("score "); writeln(score); }
+empty all_is_broken(string why, bool fatal) { write(why); writeln(fatal); }
+int half_up(int v) { all_is_broken("halving ", false); all_is_win(v); return (v + 1) / 2; }
+empty @again(const int[] xs, byte b, int n) {
+    if (b != 'z') { @is_you(n - 1, xs, 'z'); }
+    write("back "); writeln(xs.length);
+}
+empty @is_you(int n, const int[] xs, byte tag) {
+    calls += 1; int[] loc = [n, calls, 7];
+    all_is_win(calls); writeln(half_up(n + 4)); sleep(calls * 300 - 400); debug(); progress(); sleep(n);
+    write(tag); write(' '); write(n); write(' '); writeln(xs.length);
+    if (n > 0) { @is_you(n - 1, xs, tag); }
+    @again(xs, tag, n);
+    write("done "); write(loc[0]); write(loc[1]); writeln(loc[2]);
+}""", [['2', '65'], ['0', '10', '20', '66'], ['3', '5', '122']]),
 ]
 
 
